@@ -20,3 +20,34 @@ pub use crate::peer_handler::PeerHandler;
 pub use crate::serializer::Serializer;
 pub use crate::session::Status;
 pub use crate::utils::hash_to_string;
+
+thread_local! {
+    static TIE_BREAK_SEED: std::cell::Cell<Option<u64>> = std::cell::Cell::new(None);
+}
+
+/// Make the tie-break of `choose_piece_index` reproducible on this thread: with `Some(seed)` the
+/// candidate list is put into a pseudo-random order derived from the seed (instead of the order left
+/// by `thread_rng`); `None` restores the normal behaviour.
+pub fn set_tie_break_seed(seed: Option<u64>) {
+    TIE_BREAK_SEED.with(|c| c.set(seed));
+}
+
+pub(crate) fn reorder_candidates(candidates: &mut Vec<(usize, u32)>) {
+    TIE_BREAK_SEED.with(|c| {
+        if let Some(mut state) = c.get() {
+            let mut next = || {
+                state = state.wrapping_add(0x9E37_79B9_7F4A_7C15);
+                let mut z = state;
+                z = (z ^ (z >> 30)).wrapping_mul(0xBF58_476D_1CE4_E5B9);
+                z = (z ^ (z >> 27)).wrapping_mul(0x94D0_49BB_1331_11EB);
+                z ^ (z >> 31)
+            };
+            candidates.sort();
+            for i in (1..candidates.len()).rev() {
+                let j = (next() % (i as u64 + 1)) as usize;
+                candidates.swap(i, j);
+            }
+            c.set(Some(state));
+        }
+    });
+}
